@@ -94,3 +94,39 @@ int vsnprintf(char *s, size_t n, const char *fmt, va_list ap) {
 	(void)fmt; (void)ap; if (n > 0) s[0] = 0; return 0;
 }
 int sprintf(char *s, const char *fmt, ...) { (void)fmt; s[0] = 0; return 0; }
+
+/* ---- strtol for bases 10 and 16 (the only ones the library uses): leading white space, optional sign, optional
+ * 0x/0X prefix for base 16, saturating like glibc ---- */
+#include <limits.h>
+static int v_digit(char c, int base) {
+	int d = -1;
+	if (c >= '0' && c <= '9') d = c - '0';
+	else if (c >= 'a' && c <= 'f') d = c - 'a' + 10;
+	else if (c >= 'A' && c <= 'F') d = c - 'A' + 10;
+	return (d >= 0 && d < base) ? d : -1;
+}
+long strtol(const char *s, char **end, int base) {
+	size_t i = 0;
+	while (s[i] == ' ' || (s[i] >= '\t' && s[i] <= '\r')) i++;
+	bool neg = false;
+	if (s[i] == '+' || s[i] == '-') { neg = s[i] == '-'; i++; }
+	if (base == 16 && s[i] == '0' && (s[i + 1] == 'x' || s[i + 1] == 'X') && v_digit(s[i + 2], 16) >= 0) i += 2;
+	size_t start = i;
+	unsigned long acc = 0; bool sat = false;
+	while (v_digit(s[i], base) >= 0) {
+		unsigned long d = (unsigned long)v_digit(s[i], base);
+		if (acc > ((unsigned long)LONG_MAX - d) / (unsigned long)base) sat = true; else acc = acc * (unsigned long)base + d;
+		i++;
+	}
+	if (i == start) { if (end) *end = (char *)s; return 0; }
+	if (end) *end = (char *)&s[i];
+	if (sat) return neg ? LONG_MIN : LONG_MAX;
+	return neg ? -(long)acc : (long)acc;
+}
+/* files: fopen succeeds or fails (solver's choice); content comes from the yaml model */
+#include <stdio.h>
+static FILE verif_file;
+int verif_fopen_calls, verif_fclose_calls;
+FILE *fopen(const char *path, const char *mode) { (void)path; (void)mode; verif_fopen_calls++; return ND_bool("fopen_ok") ? &verif_file : NULL; }
+int fclose(FILE *f) { (void)f; verif_fclose_calls++; return 0; }
+int snprintf(char *s, size_t n, const char *fmt, ...) { (void)fmt; if (n > 0) s[0] = 0; return 0; }
